@@ -1319,6 +1319,9 @@ class PGPMessage(Armorable, PGPObject):
         del passphrase
 
         msg = PGPMessage() | skesk
+        # RFC 4880 6.2: the Charset armor header describes the character set the plaintext is in
+        if 'Charset' in self.ascii_headers:
+            msg.ascii_headers['Charset'] = self.ascii_headers['Charset']
 
         if not self.is_encrypted:
             skedata = IntegrityProtectedSKEDataV1()
@@ -1357,6 +1360,9 @@ class PGPMessage(Armorable, PGPObject):
 
         else:
             raise PGPDecryptionError("Decryption failed")
+
+        if 'Charset' in self.ascii_headers:
+            decmsg.ascii_headers.setdefault('Charset', self.ascii_headers['Charset'])
 
         return decmsg
 
@@ -2786,6 +2792,9 @@ class PGPKey(Armorable, ParentRef, PGPObject):
 
         else:
             _m = PGPMessage()
+            # RFC 4880 6.2: the Charset armor header describes the character set the plaintext is in
+            if 'Charset' in message.ascii_headers:
+                _m.ascii_headers['Charset'] = message.ascii_headers['Charset']
             skedata = IntegrityProtectedSKEDataV1()
             skedata.encrypt(sessionkey, cipher_algo, message.__bytes__())
             _m |= skedata
@@ -2835,6 +2844,9 @@ class PGPKey(Armorable, ParentRef, PGPObject):
         # now that we have the symmetric cipher used and the key, we can decrypt the actual message
         decmsg = PGPMessage()
         decmsg.parse(message.message.decrypt(key, alg))
+
+        if 'Charset' in message.ascii_headers:
+            decmsg.ascii_headers.setdefault('Charset', message.ascii_headers['Charset'])
 
         return decmsg
 
